@@ -221,6 +221,9 @@ def c04(chk):
                 "thorough: all states/transitions model-checked, a random 1/24 of transitions and 1/6 of states replayed. "
                 "Distinct+non-trivial = unique (pre, op) whose op changes the document or is refused, plus unique states.")
     mod = "MCDocument"
+    # the deserialisation / builder gate over every small document, valid or not
+    ld = chk.mc(mod, "Document_load_%s.cfg" % chk.tier, workers=4, timeout=900, heap="4g")
+    chk.replay(ld["cases_file"], tag=".load", timeout=3000, vacuity=False)
     r = chk.mc(mod, "Document_%s.cfg" % chk.tier, workers=q(chk, 6, 14), timeout=q(chk, 600, 7000), heap=q(chk, "6g", "24g"))
     chk.exhaustive = chk.tier == "quick"
     chk.replay(r["cases_file"], timeout=7000)
